@@ -108,3 +108,7 @@ func AsTCPConn(c net.Conn) (TCPLike, bool) {
 	t, ok := c.(TCPLike)
 	return t, ok
 }
+
+// Touch does nothing; rewritten call sites that need no other hook call it so that the hook
+// import of the rewritten file is used.
+func Touch() {}
